@@ -160,6 +160,9 @@ func genC15(t *rapid.T) c15Case {
 		exc := chance(t, "exception", 4)
 		for j := 0; j < nd; j++ {
 			d := pick(t, "domain", c15Domains)
+			if chance(t, "tiny-domain", 5) {
+				d = tinyDomain(t)
+			}
 			if chance(t, "negated", 3) {
 				d = "~" + d
 			}
@@ -175,7 +178,7 @@ func genC15(t *rapid.T) c15Case {
 	// a confusable host of some rule domain
 	for _, ln := range c.Lines {
 		if i := strings.Index(ln, "#"); i > 0 && chance(t, "confusable", 3) {
-			d := strings.TrimPrefix(strings.Split(ln[:i], ",")[0], "~")
+			d := strings.TrimPrefix(pick(t, "confusable-of", strings.Split(ln[:i], ",")), "~")
 			if strings.HasSuffix(d, ".*") {
 				d = d[:len(d)-2] + "." + pick(t, "wsuf", wildSuffixes)
 			}
